@@ -324,7 +324,24 @@ func (pm *ProtocolManager) rcvBlockLoop() {
 func (pm *ProtocolManager) insertBlock(b *types.Block) error {
 	// pop the confirms which arrived before block
 	pm.mergeConfirmsFromCache(b)
-	return pm.chain.InsertBlock(b)
+	err := pm.chain.InsertBlock(b)
+	// confirms which arrived while InsertBlock was running were cached after the pop above
+	pm.flushLateConfirms(b.Height(), b.Hash())
+	return err
+}
+
+// flushLateConfirms hands the cached confirms of a block that is in the chain by now to the chain
+func (pm *ProtocolManager) flushLateConfirms(height uint32, hash common.Hash) {
+	if !pm.chain.HasBlock(hash) {
+		return
+	}
+	if late := pm.confirmsCache.Pop(height, hash); len(late) > 0 {
+		sigs := make([]types.SignData, 0, len(late))
+		for _, confirm := range late {
+			sigs = append(sigs, confirm.SignInfo)
+		}
+		pm.chain.InsertConfirms(height, hash, sigs)
+	}
 }
 
 // stableBlockLoop block has been stable
@@ -939,6 +956,8 @@ func (pm *ProtocolManager) handleConfirmMsg(msg *p2p.Msg) error {
 		go pm.chain.InsertConfirms(confirm.Height, confirm.Hash, []types.SignData{confirm.SignInfo})
 	} else {
 		pm.confirmsCache.Push(confirm)
+		// the block may have been inserted between the HasBlock check and the Push
+		pm.flushLateConfirms(confirm.Height, confirm.Hash)
 		if pm.confirmsCache.Size() > 100 {
 			log.Debugf("confirmsCache's size: %d", pm.confirmsCache.Size())
 		}
